@@ -10,7 +10,10 @@ J=3
 if [ "${1:-}" = "-j" ]; then J=$2; shift 2; fi
 names=("$@")
 if [ ${#names[@]} -eq 0 ]; then
-	for d in "$V"/seeded/*/; do names+=("$(basename "$d")"); done
+	for d in "$V"/seeded/*/; do
+		grep -q '"superseded"' "$d/meta.json" 2>/dev/null && continue
+		names+=("$(basename "$d")")
+	done
 fi
 one() {
 	n=$1
